@@ -126,6 +126,11 @@ def pair_oracle(case):
         undisturbed = sid not in rst and sid not in app_reset and not conn_bad
         if got.get("end") and got.get("is_end_stream") is False and undisturbed:
             bad(m, "is_end_stream() false at the clean end")
+        other = "response" if kind == "request" else "request"
+        recv_side_reset = kind in ("request", "response") and any(
+            x["kind"] == other and x.get("sid") == sid and (x.get("sub") or {}).get("err") == "reset" for x in msgs)
+        if got.get("data_none") and got.get("err") and not recv_side_reset and not conn_bad:
+            bad(m, "poll_data reported the end of the body (None) on a stream that did not end cleanly: the next read reports an error")
         if got.get("err") and undisturbed and sub.get("err") is None:
             bad(m, "the receiver reports an error on a stream nobody reset", rst=sorted(rst))
         if case.get("finished") and undisturbed and sub.get("end") and sub.get("err") is None and m.get("recv_done") and not got.get("end"):
